@@ -29,7 +29,7 @@ import pathlib
 import textwrap
 
 from ujvc.core import EngineSignal
-from ujvc.units import base_env, get, unit
+from ujvc.units import base_env, get, unit, user_value
 
 REL = "stores/_file_store.py"
 STORES = {
@@ -492,10 +492,15 @@ def _store_unit(cls):
         target, gfs = _setup(ctx)
         env = fs_env(gfs)
         write = get(rel, f"{cls}.write").compile_into(env)
-        s = _Self()
+        from ujvc.units import real_method_fallback
+
+        class S(_Self):     # helper methods a refactoring may add to the store class are taken from the real class and verified inline
+            __getattr__ = real_method_fallback(rel, cls, env, native_loops="all")
+
+        s = S()
         s.path = target
         s.encoding = "enc"
-        value = None if cls == "TouchFileStore" else object()
+        value = None if cls == "TouchFileStore" else user_value("stored")
         raised = None
         try:
             r = write(s, value)
